@@ -10,7 +10,9 @@ use tokio::fs;
 use tokio::sync::Mutex;
 use tracing::info;
 
-use super::{DiskRowset, Manifest, SecondaryStorage, StorageOptions, StorageResult};
+use super::{
+    DiskRowset, Manifest, SecondaryStorage, StorageOptions, StorageResult, TracedStorageError,
+};
 use crate::catalog::RootCatalog;
 use crate::storage::index::InMemoryIndexes;
 use crate::storage::secondary::manifest::*;
@@ -72,6 +74,7 @@ impl SecondaryStorage {
         let mut dvs_to_open = HashMap::new();
 
         let mut table_changeset = vec![];
+        let mut dropped_tables = std::collections::HashSet::new();
         for op in manifest_ops {
             match op {
                 ManifestOperation::CreateTable(entry) => {
@@ -80,6 +83,7 @@ impl SecondaryStorage {
                 }
                 ManifestOperation::DropTable(entry) => {
                     engine.apply_drop_table(&entry)?;
+                    dropped_tables.insert(entry.table_id);
                     // TODO: actually drop table entries are not needed for a compacted manifest.
                     // However, these are needed to restore correct `table_id`. Persist `table_id`
                     // to manifest may solve it, and there may be other solutions.
@@ -150,7 +154,14 @@ impl SecondaryStorage {
         let tables = engine.tables.read().clone();
 
         for (_, entry) in rowsets_to_open {
-            let table = tables.get(&entry.table_id).unwrap();
+            // an INSERT may commit a row-set for a table that a concurrent DROP TABLE has just
+            // removed: such entries follow the drop in the manifest and belong to no table.
+            let Some(table) = tables.get(&entry.table_id) else {
+                if dropped_tables.contains(&entry.table_id) {
+                    continue;
+                }
+                return Err(TracedStorageError::not_found("table", entry.table_id.table_id));
+            };
             let disk_rowset = DiskRowset::open(
                 table.get_rowset_path(entry.rowset_id),
                 table.columns.clone(),
@@ -163,7 +174,12 @@ impl SecondaryStorage {
         }
 
         for (_, entry) in dvs_to_open {
-            let table = tables.get(&entry.table_id).unwrap();
+            let Some(table) = tables.get(&entry.table_id) else {
+                if dropped_tables.contains(&entry.table_id) {
+                    continue;
+                }
+                return Err(TracedStorageError::not_found("table", entry.table_id.table_id));
+            };
             let dv = DeleteVector::open(
                 entry.dv_id,
                 entry.rowset_id,
